@@ -64,13 +64,15 @@ func vPathString(max int) string {
 
 func vh_C10_cleanPath() {
 	p := vPathString(vS10())
-	base := "/"
+	// the start directory as the option function installs it
+	rs := &RequestServer{startDirectory: "/"}
 	switch vChoice(3) {
 	case 1:
-		base = cleanPath(vPathString(3))
+		WithStartDirectory(vPathString(3))(rs)
 	case 2:
-		base = "/start/dir"
+		WithStartDirectory("/start/dir")(rs)
 	}
+	base := rs.startDirectory
 	vAssert(vCleanAbs(base), "start directory is absolute and clean")
 	got := cleanPathWithBase(base, p)
 	vAssert(vCleanAbs(got), "path handed to handlers is absolute and lexically clean")
